@@ -5,10 +5,10 @@ CONSTANTS
   SPaths = {"p", "q"}
   PPaths = {"x"}
   Names = {"n"}
-  Tags = {"t"}
+  Tags = {}
   MaxCtrl = 2
   MaxCaps = 3
-  MaxSteps = 5
+  MaxSteps = 4
   VTypes <- VTypes_S
   IssueBT <- IssueBT_S
   AcctBT <- AcctBT_S
